@@ -391,6 +391,11 @@ def reshape(tens, shape, eps=1e-16, rmax=sys.maxsize):
                         core = cores[idx]
                 idx_shape += 1
                 if idx_shape == len(shape):
+                    # cores that were not consumed carry only modes of size 1: absorb them
+                    for k in range(idx, len(cores)):
+                        if cores[k].shape[1] == 1 and cores[k].shape[2] == 1:
+                            cores_new[-1] = tn.einsum(
+                                'ijkl,lm->ijkm', cores_new[-1], cores[k][:, 0, 0, :])
                     break
             else:
                 idx += 1
@@ -400,6 +405,12 @@ def reshape(tens, shape, eps=1e-16, rmax=sys.maxsize):
                 core = tn.einsum('ijkl,lmno->ijmkno', core, cores[idx])
                 core = tn.reshape(
                     core, [core.shape[0], core.shape[1]*core.shape[2], -1, core.shape[-1]])
+
+        idx_shape += 1
+        while idx_shape < len(shape):
+            cores_new.append(tn.ones(
+                (1, 1, 1, 1), dtype=cores_new[-1].dtype, device=cores_new[-1].device))
+            idx_shape += 1
 
     else:
         if np.prod(tens.N) != np.prod(shape):
@@ -434,6 +445,11 @@ def reshape(tens, shape, eps=1e-16, rmax=sys.maxsize):
                         core = cores[idx]
                 idx_shape += 1
                 if idx_shape == len(shape):
+                    # cores that were not consumed carry only modes of size 1: absorb them
+                    for k in range(idx, len(cores)):
+                        if cores[k].shape[1] == 1:
+                            cores_new[-1] = tn.einsum(
+                                'ijk,kl->ijl', cores_new[-1], cores[k][:, 0, :])
                     break
             else:
                 idx += 1
